@@ -52,7 +52,7 @@ use std::sync::{Arc, RwLock};
 pub const DEF: PropDef = PropDef {
     id: "C12",
     level: "model_checking",
-    rule: "per configuration (rule set in {copy, join, chain, trans, transdag, static, wrec} x alpha1,alpha2 in {2,3} x static graph with 0/1 triple x eviction exact/one tick late = 112 configurations, each an independent search) breadth-first search over histories of ops arrive(w,t) [2 windows x 3 triples (cycle a-p-b b-p-c c-p-a, or a-p-b b-p-c a-p-c for transdag/wrec); a listing keeps the latest arrival time], tick [now+=1, listings with time+alpha(+1 if late)<=now dropped], evaluate [real incremental_sds_plus with the SdsWithExpiry carried from the previous evaluate; only at a strictly later time than the previous evaluation] up to depth 6 (quick) / 9 (thorough); states de-duplicated on the full state relative to now (listing ages, complete carried map with expiry-now, evaluate-enabled); plus a plain tree search without any de-duplication to depth 4 / 6; every evaluate compares fact sets and expiries per component with the (max,min) reference fixpoint over the alive annotated facts and the fact sets with the real naive_sds_plus. evaluations = evaluate transitions executed on the real code (BFS + tree); states/transitions = BFS only; non-trivial = BFS evaluate whose carried map has a fact still alive and whose expected result has a derived (non-seed) fact; distinct = distinct (configuration, relative pre-state); outcomes = distinct (configuration, relative result)",
+    rule: "per configuration (rule set in {copy, join, chain, trans, transdag, static, wrec} x alpha1,alpha2 in {2,3} x static graph with 0/1 triple x eviction exact/one tick late = 128 configurations, each an independent search) breadth-first search over histories of ops arrive(w,t) [2 windows x 3 triples (cycle a-p-b b-p-c c-p-a, or a-p-b b-p-c a-p-c for transdag/wrec); a listing keeps the latest arrival time], tick [now+=1, listings with time+alpha(+1 if late)<=now dropped], evaluate [real incremental_sds_plus with the SdsWithExpiry carried from the previous evaluate; only at a strictly later time than the previous evaluation] up to depth 6 (quick) / 9 (thorough); states de-duplicated on the full state relative to now (listing ages, complete carried map with expiry-now, evaluate-enabled); plus a plain tree search without any de-duplication to depth 4 / 6; every evaluate compares fact sets and expiries per component with the (max,min) reference fixpoint over the alive annotated facts and the fact sets with the real naive_sds_plus. evaluations = evaluate transitions executed on the real code (BFS + tree); states/transitions = BFS only; non-trivial = BFS evaluate whose carried map has a fact still alive and whose expected result has a derived (non-seed) fact; distinct = distinct (configuration, relative pre-state); outcomes = distinct (configuration, relative result)",
     assumptions: &[
         "universe: windows http://w1/ http://w2/ (alpha 2 or 3), static graph http://sg/ with triple b-k-c or empty, output component http://out/, entities a b c, arrival time = current time, start time 0",
         "alive <=> event_time + alpha > now (translate_sds_to_datalog); a window may keep an expired listing for one more tick (eviction=late) — the statement speaks about alive facts only, so such a listing must not contribute",
@@ -141,6 +141,17 @@ const RULESETS: &[(&str, [(usize, usize); 3], &[RS])] = &[
             RS { premise: &[A(WIN[0], "p", "x", "y"), A(SG, "k", "y", "z")], conclusion: &[A(OUT, "s", "x", "z")] },
             RS { premise: &[A(WIN[1], "p", "x", "y"), A(SG, "k", "y", "z")], conclusion: &[A(OUT, "s", "x", "z")] },
             RS { premise: &[A(SG, "k", "x", "y")], conclusion: &[A(OUT, "st", "x", "y")] },
+        ],
+    ),
+    // a rule concluding INTO a window component from the other window: a fact can be alive both as
+    // a listed stream fact of w1 and as a derivation from a (possibly longer-lived) listing of w2,
+    // so its expiry is the max of its own window expiry and the derived one
+    (
+        "xwin",
+        CYCLE,
+        &[
+            RS { premise: &[A(WIN[1], "p", "x", "y")], conclusion: &[A(WIN[0], "p", "x", "y")] },
+            RS { premise: &[A(WIN[0], "p", "x", "y")], conclusion: &[A(OUT, "cp", "x", "y")] },
         ],
     ),
     // recursion inside a window component: derived facts coincide with stream facts of the same
